@@ -140,6 +140,39 @@ def conversions(seqs, trace):
     return None
 
 
+def mixed_alphabet_contract(trace):
+    """rows over different alphabets: every row is decoded with the alphabet of its own sequence"""
+    s1 = seq.NucleotideSequence("ACGT")                       # unambiguous alphabet
+    s2 = seq.NucleotideSequence("ANRT")                       # ambiguous alphabet
+    s3 = seq.GeneralSequence(seq.LetterAlphabet("WXYZ"), "WXYZ")
+    for seqs in ((s1, s2), (s2, s1), (s1, s3), (s3, s2)):
+        tr = [t for t in trace if all(x < 4 for x in t)]
+        if not tr:
+            return None
+        ali = align.Alignment(list(seqs), np.array(tr, dtype=np.int64), None)
+        try:
+            syms = align.get_symbols(ali)
+            gapped = ali.get_gapped_sequences()
+        except Exception as e:
+            return f"alignment of {[str(x) for x in seqs]}: {type(e).__name__}: {e}"
+        for r, sq in enumerate(seqs):
+            exp = [None if t[r] == -1 else str(sq)[t[r]] for t in tr]
+            if list(syms[r]) != exp:
+                return f"get_symbols row {r} of {[str(x) for x in seqs]} = {list(syms[r])}, expected {exp}"
+            if gapped[r].replace("-", "") != "".join(x for x in exp if x is not None):
+                return f"gapped row {r} stripped of gaps differs from the aligned part of its sequence"
+        codes = align.get_codes(ali)
+        for r, sq in enumerate(seqs):
+            if codes[r].tolist() != [(-1 if t[r] == -1 else int(sq.code[t[r]])) for t in tr]:
+                return f"get_codes row {r}"
+    return None
+
+
+for trace in all_traces(3, 3)[::2]:
+    R.check("conversions recover trace and sequences; helpers == column-wise recomputation", "rows over different alphabets", {"trace": trace},
+            lambda trace=trace: mixed_alphabet_contract(trace))
+
+
 def score_contract(seqs, trace, gap, terminal):
     ali = align.Alignment(seqs, np.array(trace, dtype=np.int64), None)
     codes = align.get_codes(ali)
